@@ -103,6 +103,11 @@ fn run(op: &Op) -> (u64, usize) {
             Some(r) => dg.f64(cdshealpix::largest_center_to_vertex_distance_with_radius(*d, *lon, *lat, *r)),
             None => dg.f64(cdshealpix::largest_center_to_vertex_distance(*d, *lon, *lat)),
         },
+        Op::W { from, to, lon, lat, r } => {
+            for v in cdshealpix::largest_center_to_vertex_distances_with_radius(*from, *to, *lon, *lat, *r).iter() {
+                dg.f64(*v);
+            }
+        }
         Op::Zh { d, lon } => dg.u64(nested::hash(*d, *lon, 2.0)),
         Op::Zd { lon } => dg.u64(nested::hash(30, *lon, 0.5)),
         Op::Zc { d } => {
